@@ -8,6 +8,7 @@ CONSTANTS
     Debug = TRUE
     HookMode = "none"
     PvSet = FALSE
+    Hang = FALSE
     DrainOnRefusal = TRUE
 VIEW View
 CHECK_DEADLOCK FALSE
